@@ -2,7 +2,7 @@ import GPy.C10.Gen
 import GPy.C17.Gen
 import GPy.C11.Gen
 import GPy.C18.Gen
-import GPy.C09.Gen
+import GPy.C09.Search
 import GPy.C08.Gen
 import GPy.C14.Gen
 import GPy.C02.Gen
